@@ -37,6 +37,20 @@ CFG = {
         "Swat4.C14.renew_rejected_unchanged",
         "Swat4.C14.facts_frontend_status",
         "Swat4.C14.facts_frontend_liveness",
+        # RefLeUpd as an invariant of the system model (reviewer item 8)
+        "Swat4.C14.usecases_walk_on_moving_clock",
+        "Swat4.C14.refLeUpd_usys",
+        "Swat4.TimedInv.usys_inv",
+        # the cleanup pass inside the system model: C14_race's premise derived from the run
+        "Swat4.C14.clean_race_run",
+        "Swat4.C14.clean_race_run_lazy",
+        "Swat4.CleanRace.removing_established_lazy",
+        "Swat4.CleanRace.fetch_pending",
+        "Swat4.CleanRace.remove_step",
+        "Swat4.CleanRace.removing_established",
+        "Swat4.CleanRace.removing_run",
+        "Swat4.CleanRace.removing_spares",
+        "Swat4.C14.clean_removes_index_entries",
     ],
     "shards": (4, 16),
     "nontrivial": _nontrivial,
@@ -50,6 +64,8 @@ CFG = {
     "assumptions": [
         "each repository call is atomic at its commit (C09); the race is generated at call granularity",
         "refreshedAt <= updatedAt for every stored record is now a theorem (refLeUpd_preserved: invariant of every use case run at a clock value not before any stored update time, i.e. on a monotone clock; a backward clock step breaks it — witness in Properties/C14.lean); it is still checked on every dump by the correspondence (UP >= RF)",
+        "refLeUpd_usys: refreshedAt <= updatedAt <= clock is an invariant of every USys run (any clients whose programs walk on a moving clock - all use cases do -, any interleaving of calls, crashes, faults, and ticks with NON-NEGATIVE advance)",
+        "clean_race_run quantifies over interleavings in which every client other than the cleaner never issues a Remove (heartbeat, keepalive, probes, REST submission, refresh, revival, listing) and the cleaner neither crashes nor meets a storage fault; with a removing client the statement is false in the model AND in the code: remove + re-registration restarts the version counter, and the cleaner's Remove with its stale copy (stored version not newer: servers.go:184) deletes the fresh registration without consulting the conflict callback (witness in Properties/C14.lean)",
         "rows sit under their own address key (Keyed: hypothesis of clean_complete / refreshedAt_changes_only_by; invariant by C16 keyed_preserved and refLeUpd_preserved)",
         "instance cleanup uses an inclusive bound where server cleanup uses an exclusive one (as coded; both mirrored)",
     ],
@@ -65,7 +81,13 @@ CFG = {
                 "refreshed_survives_pass (the race theorem from an invariant-satisfying start, no per-row hypothesis), refreshedAt_changes_only_by (a stored refresh time "
                 "changes only to `now` and only under the key of an accepted heartbeat, an owner-checked keepalive or a successful probe; retry, failure, refresh, revival, "
                 "REST submission, removal and the cleaners leave it alone). Tied to listservers.go, servercleaner.go, instancecleaner.go by sequential histories on a fake clock with "
-                "boundary-aligned steps and by all placements of one refresh among the cleanup pass's repository calls.",
+                "boundary-aligned steps and by all placements of one refresh among the cleanup pass's repository calls. "
+                "Round 6: refLeUpd_usys (Keyed and refreshedAt <= updatedAt <= clock hold in every reachable state of the system model USys: any clients, any interleaving, "
+                "crashes, faults, non-negative ticks - the clock may now move between the calls of one use case); clean_race_run / clean_race_run_lazy (the scan/fetch/guarded-remove "
+                "pass interleaved with arbitrary non-removing clients in USys: the premise of C14_race - every pending copy is the stored record or strictly older - is derived "
+                "from the run (CleanRace.Pending, established by the fetch, kept by every event), no step of the cleaner removes a row that is at that moment refreshed after the "
+                "cutoff, and a pending copy that is still the stored record is removed at its turn); clean_removes_index_entries (through C10's removeBatch_consistent and C11's "
+                "rel_remove: the removal batch deletes the record together with its updated / refreshed scores and all nine status-set memberships).",
         "level_note": "Trusted: Lean kernel (propext, Quot.sound, Classical.choice); atomic repository calls (C09/C11); Prog models of the cleaners and "
                       "the listing validated by the differential run; the bookkeeping oracle in the driver.",
         "technique": "Lean 4 proof (induction over the cleanup pass with a per-key frame lemma) + differential correspondence on a fake clock",
